@@ -466,6 +466,18 @@ class ExprMixin:
                 yield from self.evx(n.orelse, st1.assume(z3.Not(t)), sink)
 
     def ev_BinOp(self, n, st, sink):
+        if isinstance(n.op, ast.Add) and isinstance(n.left, ast.List) and not isinstance(n.right, ast.List) and \
+                all(isinstance(e_, (ast.Name, ast.Constant)) for e_ in n.left.elts):
+            # [x, y] + seq: the display takes the sequence type of the other operand (its elements are plain names or
+            # constants, so evaluating the right operand first changes nothing)
+            for st1, b in self.evx(n.right, st, sink):
+                if isinstance(b.ty, T.ListT):
+                    for st2, a in self.evx(n.left, st1.set_meta("want", b.ty), sink):
+                        yield from self.binop(n.op, a, b, st2.set_meta("want", st.meta.get("want")), sink, n)
+                else:
+                    for st2, a in self.evx(n.left, st1, sink):
+                        yield from self.binop(n.op, a, b, st2, sink, n)
+            return
         for st1, a in self.evx(n.left, st, sink):
             for st2, b in self.evx(n.right, st1, sink):
                 yield from self.binop(n.op, a, b, st2, sink, n)
@@ -594,6 +606,30 @@ class ExprMixin:
             if isinstance(op, ast.GtE):
                 return z3.IsSubset(b.z, a.z)
             raise Unsupported("set comparison", n)
+        ta, tb = self._as_pytuple(a, n), self._as_pytuple(b, n)
+        if ta is not None and tb is not None:
+            # tuples compare lexicographically
+            if len(ta) != len(tb):
+                raise Unsupported("ordering comparison of tuples of different lengths", n)
+            strict_op = ast.Lt() if isinstance(op, (ast.Lt, ast.LtE)) else ast.Gt()
+            res = z3.BoolVal(isinstance(op, (ast.LtE, ast.GtE)))          # all components equal
+            for i, (x, y) in reversed(list(enumerate(zip(ta, tb)))):
+                try:
+                    lt_xy, eq_xy = self.compare(strict_op, x, y, st, n), self.equal(x, y, n)
+                except Unsupported:
+                    if i == 0:
+                        raise
+                    # components Python cannot order (None against a path): reached only when everything before ties,
+                    # where Python raises TypeError; the outcome is left arbitrary (the exception is NOT modelled)
+                    self.dropped.add("TypeError of an unorderable tuple component on a tie")
+                    lt_xy, eq_xy = z3.FreshConst(z3.BoolSort(), "unorderable"), z3.BoolVal(False)
+                res = z3.Or(lt_xy, z3.And(eq_xy, res))
+            return res
+        if isinstance(a.ty, T.Atom) and a.ty == b.ty:
+            # abstract texts (paths, names): Python orders them as strings; here an arbitrary strict total order
+            lt = self.atom_order(a.ty)
+            x, y = (a.z, b.z) if isinstance(op, (ast.Lt, ast.LtE)) else (b.z, a.z)
+            return lt(x, y) if isinstance(op, (ast.Lt, ast.Gt)) else z3.Or(lt(x, y), x == y)
         a2, b2 = a, b
         if a.ty is T.PY:
             a2 = self.lift(a.z, want=b.ty if b.ty is T.REAL else None)
@@ -611,6 +647,24 @@ class ExprMixin:
             return {ast.Lt: lambda x, y: x < y, ast.LtE: lambda x, y: x <= y, ast.Gt: lambda x, y: y < x,
                     ast.GtE: lambda x, y: y <= x}[type(op)](a2.z, b2.z)
         raise Unsupported(f"ordering comparison on {a.ty} and {b.ty}", n)
+
+    def _as_pytuple(self, v, n):
+        if isinstance(v.ty, T.TupT):
+            return self.tuple_items(v, n)
+        if v.ty is T.PY and isinstance(v.z, tuple) and len(v.z) == 2 and v.z[0] == "pytuple":
+            return list(v.z[1])
+        return None
+
+    def atom_order(self, ty):
+        key = ("order", ty.name)
+        if key not in self._tycache:
+            lt = z3.Function("lt!" + ty.name, ty.sort(), ty.sort(), z3.BoolSort())
+            x, y, w = (z3.Const(f"o{i}!{ty.name}", ty.sort()) for i in range(3))
+            self.axioms.append(z3.ForAll([x], z3.Not(lt(x, x))))
+            self.axioms.append(z3.ForAll([x, y, w], z3.Implies(z3.And(lt(x, y), lt(y, w)), lt(x, w)), patterns=[z3.MultiPattern(lt(x, y), lt(y, w))]))
+            self.axioms.append(z3.ForAll([x, y], z3.Or(lt(x, y), lt(y, x), x == y), patterns=[lt(x, y)]))
+            self._tycache[key] = lt
+        return self._tycache[key]
 
     def is_test(self, a, b, n):
         if b.ty is T.NONE or (b.ty is T.PY and b.z is None):
